@@ -304,7 +304,7 @@ class P:
             return ("g", v[1:].strip('"'))
         if k == "num":
             if isinstance(ty, FloatT):
-                return ("c", Fraction(v))
+                return ("c", rationalize(Fraction(float(v))))
             iv = int(v)
             if isinstance(ty, IntT):
                 iv &= (1 << ty.bits) - 1
@@ -412,6 +412,20 @@ PARAM_ATTRS = {"noundef", "nonnull", "signext", "zeroext", "noalias", "nocapture
                "nofree", "nest", "swiftself", "noreturn", "nounwind", "inalloca", "preallocated", "captures"}
 
 
+RATIONALIZE = True
+
+
+def rationalize(f):
+    """A double literal that is the rounding of a simple rational (1/6, 0.1, ...) denotes that rational in
+    the exact-real domain: literal rounding is rounding, which the real-domain claims exclude."""
+    if not RATIONALIZE or f.denominator == 1:
+        return f
+    c = f.limit_denominator(4096)
+    if c != f and float(c) == float(f):
+        return c
+    return f
+
+
 def hexfloat(v, ty):
     if v.startswith("0xK"):
         raw = int(v[3:], 16)   # x86_fp80: 1 sign, 15 exp, 64 mantissa (explicit int bit)
@@ -429,7 +443,7 @@ def hexfloat(v, ty):
         return ("nonfinite", "nan", 1)
     if d in (float("inf"), float("-inf")):
         return ("nonfinite", "inf", 1 if d > 0 else -1)
-    return Fraction(d)
+    return rationalize(Fraction(d))
 
 
 def cstring(v):
